@@ -166,6 +166,8 @@
 
 mod handle_unwind;
 mod key;
+#[cfg(happylock_verif)]
+mod verif_hook;
 
 pub mod collection;
 pub mod lockable;
